@@ -96,8 +96,12 @@ func RunDiamChf(prefix, in, out string) error {
 	amux.HandleFunc("CCR", serve(abp, "CCR", "CCR", msgTypes["CCR"], func() any {
 		return &charging_datatype.AccountDebitResponse{SessionId: "min", EventTimestamp: datatype.Time(time.Now())}
 	}))
-	go func() { _ = diam.ListenAndServeTLS(fmt.Sprintf("127.0.0.1:%d", env.RfPort), env.Pem, env.Key, rmux, nil) }()
-	go func() { _ = diam.ListenAndServeTLS(fmt.Sprintf("127.0.0.1:%d", env.AbPort), env.Pem, env.Key, amux, nil) }()
+	go func() {
+		_ = diam.ListenAndServeTLS(fmt.Sprintf("127.0.0.1:%d", env.RfPort), env.Pem, env.Key, rmux, nil)
+	}()
+	go func() {
+		_ = diam.ListenAndServeTLS(fmt.Sprintf("127.0.0.1:%d", env.AbPort), env.Pem, env.Key, amux, nil)
+	}()
 	if !WaitPort(env.RfPort, 5*time.Second) || !WaitPort(env.AbPort, 5*time.Second) {
 		return fmt.Errorf("programmable peers did not come up")
 	}
